@@ -11,6 +11,7 @@ from ..harness import KNOWN, KnownFinding, Sub, Violation, known
 from ..refs import kauri_ref as KR
 
 QUICK_SCALE = 3  # quick budgets below are multiplied by this (kept at about half a minute on 8 processes)
+THOROUGH_SCALE = 4  # thorough budgets below are multiplied by this (about ten minutes on 16 processes)
 
 RULE = ("(A) arbitrary consistent intermediate states: n in [3,12] samples on a small integer grid (ties, duplicates), "
         "d<=3, symmetric kernels (PSD, indefinite, tanh-like), up to 5 leaves, every cluster non-empty, K_max >= "
